@@ -31,6 +31,8 @@ import   "github.com/pbenner/autodiff/algorithm/matrixInverse"
 // Higham, N.~J. (2008). Functions of Matrices: Theory and Computation;
 // Society for Industrial and Applied Mathematics, Philadelphia, PA, USA.
 
+const maxIterations = 200
+
 func mSqrt(matrix Matrix) (Matrix, error) {
   n, _ := matrix.Dims()
   c  := NewScalar(matrix.ElementType(), 0.5)
@@ -51,7 +53,10 @@ func mSqrt(matrix Matrix) (Matrix, error) {
   Y1.MmulS(Y1.MaddM(Y0, t1), c)
   Z1 := Z0.CloneMatrix()
   Z1.MmulS(Z1.MaddM(Z0, t2), c)
-  for t0.Mnorm(S.MsubM(Y0, Y1)).GetFloat64() > 1e-8 {
+  for i := 0; t0.Mnorm(S.MsubM(Y0, Y1)).GetFloat64() > 1e-8; i++ {
+    if i >= maxIterations {
+      return nil, errors.New("MSqrt(): Algorithm did not converge!")
+    }
     Y0, Y1 = Y1, Y0
     Z0, Z1 = Z1, Z0
     t1, err := matrixInverse.Run(Z0)
